@@ -163,7 +163,7 @@ def run(ctx):
     ctx.evaluations += holds + fails + und
     ctx.extra['cells'] = {'width_deg': w / deg, 'holds': holds, 'definite_failures': fails, 'empty_range_panics': empties, 'undecided': und, 'excluded_band_or_ambiguous': excl}
     total = holds + fails + und + empties
-    ctx.require(total > 0 and holds + fails + empties >= 0.6 * total, 'E4 precision: %d of %d cells decided (floor 60%%)' % (holds + fails + empties, total))
+    ctx.require(nviol > 0 or (total > 0 and holds + fails + empties >= 0.6 * total), 'E4 precision: %d of %d cells decided (floor 60%%)' % (holds + fails + empties, total))
     ctx.floor('R18.1 decided cells', holds + fails + empties, 1500)
     for i in range(0, 30):
         ctx.nontrivial.add(('R18.1', 'cellgroup%d' % i))
